@@ -3,6 +3,7 @@
 From Coq Require Import List NArith ZArith Bool Permutation Sorting.Sorted.
 From Oxia.KeyOrder Require Import Model.
 From Oxia.Client Require Import Model Inst BatcherProofs StreamProofs MergeProofs ListProofs MultiGetProofs InstProofs.
+From Oxia.Client Require ShutdownModel ShutdownProofs.
 Import ListNotations.
 
 (* Batcher + write/read batch: for every executor whose answers are errors or at least as long as the request,
@@ -187,3 +188,35 @@ Theorem c20_multi_get_old_partial : forall cmp kc orig n arr,
   snd (multi_get cmp false kc orig n arr) = snd (multi_get cmp true kc orig n arr).
 Proof. exact multi_get_old_partial. Qed.
 Print Assumptions c20_multi_get_old_partial.
+
+(* Batcher shutdown at goroutine granularity (Add = closed-check + channel send; Run = receive / timer / close branch
+   with its drain loop; Close), callC of any capacity > 0, any linger / count limit, EVERY interleaving:
+   the calls whose Add has started are, as a multiset, the completed ones plus the ones still on their way -- nobody
+   completes twice. *)
+Theorem c20_each_call_completes_at_most_once_with_close : forall cfg, 0 < ShutdownModel.sd_cap cfg -> forall evs,
+  Permutation (ShutdownModel.sd_checked evs)
+    (ShutdownProofs.done_ids (snd (ShutdownModel.sd_run cfg ShutdownModel.sd_init evs)) ++
+     ShutdownModel.sd_pending (fst (ShutdownModel.sd_run cfg ShutdownModel.sd_init evs))).
+Proof. exact ShutdownProofs.sd_conservation. Qed.
+Print Assumptions c20_each_call_completes_at_most_once_with_close.
+
+(* ... and exactly once, once Run has returned, when no Add was between its closed-check and its send at the moment of
+   Close (Add happens before Close -- queued, or parked in the channel's send queue -- or after it). *)
+Theorem c20_each_call_completes_exactly_once_with_close : forall cfg, 0 < ShutdownModel.sd_cap cfg -> forall evs,
+  ShutdownModel.sd_overlapped (fst (ShutdownModel.sd_run cfg ShutdownModel.sd_init evs)) = false ->
+  ShutdownModel.sd_run_done (fst (ShutdownModel.sd_run cfg ShutdownModel.sd_init evs)) = true ->
+  Permutation (ShutdownModel.sd_checked evs)
+    (ShutdownProofs.done_ids (snd (ShutdownModel.sd_run cfg ShutdownModel.sd_init evs))).
+Proof. exact ShutdownProofs.sd_exactly_once_with_close. Qed.
+Print Assumptions c20_each_call_completes_exactly_once_with_close.
+
+(* The remaining overlap in the code as it is: Add passes the check, Close, Run drains an empty queue and returns, Add
+   enqueues: the call is never completed (a liveness gap; not observed on the real batcher unless the adder is
+   pre-empted exactly between the two statements). *)
+Theorem c20_add_overlapping_close_never_completes_refuted :
+  exists cfg evs, 0 < ShutdownModel.sd_cap cfg /\
+    let (s, o) := ShutdownModel.sd_run cfg ShutdownModel.sd_init evs in
+    ShutdownModel.sd_run_done s = true /\ ShutdownModel.sd_inflight s = [] /\ ShutdownModel.sd_parked s = [] /\
+    ShutdownModel.sd_q s = [1%N] /\ ShutdownProofs.done_ids o = [] /\ ShutdownModel.sd_overlapped s = true.
+Proof. exact ShutdownProofs.sd_overlap_never_completes_refuted. Qed.
+Print Assumptions c20_add_overlapping_close_never_completes_refuted.
